@@ -55,6 +55,27 @@ OPS = [
 # concurrent observers - they are used in the sequential probe after the threads have finished.
 
 
+class YV(int):
+    """an int whose comparison is Python code: the scheduler may switch threads in the middle of a dict comparison"""
+    __hash__ = int.__hash__
+
+    def __eq__(self, other):
+        s_ = sched.CoopRLock.sched
+        if s_ is not None:
+            s_.yield_point("VALUE_EQ")
+        return int.__eq__(self, other)
+
+    def __ne__(self, other):
+        r = self.__eq__(other)
+        return r if r is NotImplemented else not r
+
+
+# comparisons with a plain mapping: ==/!= must see one state of the cache, not a mixture of two
+CMP_OPS = [{"op": "ne", "arg": [{"k": 1, "v": 4}, {"k": 2, "v": 2}]}, {"op": "eq", "arg": [{"k": 1, "v": 4}, {"k": 2, "v": 2}]},
+           {"op": "ne", "arg": [{"k": 1, "v": 4}, {"k": 2, "v": 5}]}, {"op": "eq", "arg": [{"k": 1, "v": 4}, {"k": 2, "v": 5}]},
+           {"op": "ne", "arg": [{"k": 1, "v": 1}, {"k": 2, "v": 5}]}, {"op": "eq", "arg": [{"k": 2, "v": 5}]}]
+
+
 def norm(op):
     o = {"op": op["op"], "k": op.get("k", 0), "v": op.get("v", 0), "d": op.get("d", 0), "arg": op.get("arg", [])}
     return o
@@ -94,6 +115,9 @@ def apply(c, op):
             v = [dk(a), dv(b)]
         elif n == "clear":
             c.clear()
+        elif n in ("eq", "ne"):
+            other = {K(p["k"]): YV(p["v"]) for p in op["arg"]}     # fresh objects: no identity short cut
+            v = [int(c == other) if n == "eq" else int(c != other)]
         elif n == "contains":
             v = [1 if K(op["k"]) in c else 0]
         elif n == "len":
@@ -297,8 +321,19 @@ def jobs(tier, seed):
     for _ in range(150 if tier == "thorough" else 15):     # longer programs
         cfg = dict(rng.choice(cfgs))
         cfg["om"] = rng.choice([0, 0, 0, 1, 2])
-        progs = [[rng.choice(OPS) for _ in range(rng.randint(1, 2))] for _ in range(2)]
+        progs = [[rng.choice(OPS + CMP_OPS[:2]) for _ in range(rng.randint(1, 2))] for _ in range(2)]
         out.append((cfg, rng.choice(inits), progs, 1))
+    # a comparison racing writers of both keys it looks at (values compare through Python code, so the comparison can be
+    # interrupted between two keys): the answer must be that of ONE state the cache went through
+    writers = [[{"op": "setitem", "k": 1, "v": 1}, {"op": "setitem", "k": 2, "v": 2}],
+               [{"op": "setitem", "k": 2, "v": 2}, {"op": "setitem", "k": 1, "v": 1}],
+               [{"op": "update", "arg": [{"k": 1, "v": 1}, {"k": 2, "v": 2}]}]]
+    cmps = CMP_OPS if tier == "thorough" else CMP_OPS[:3]
+    for lru in (False, True):
+        for m in ((2, 3) if tier == "thorough" else (2,)):
+            for wr in writers if tier == "thorough" else writers[:2]:
+                for cmp_ in cmps:
+                    out.append(({"m": m, "lru": lru, "om": 0}, full, [[cmp_], wr], 2 if tier == "thorough" else 1))
     for _ in range(12 if tier == "thorough" else 16):      # three threads (thorough: with one pre-emption, ~850 executions each)
         cfg = dict(rng.choice(cfgs))
         progs = [[rng.choice(OPS)] for _ in range(3)]
